@@ -60,6 +60,7 @@ Fresh == [
   inwake |-> 0,        \* child-waker calls in flight
   indrop |-> FALSE,    \* inside the drop of the collection
   dead   |-> FALSE,    \* collection dropped
+  refused|-> FALSE,    \* a push was refused (or panicked) earlier in this run: it must not have disturbed anything (C15)
   poison |-> FALSE,    \* a child's destructor panicked: the properties do not speak about what follows, except exactly-once dropping
   unw    |-> FALSE,    \* a panic raised by a child's destructor is unwinding through the crate
   qn     |-> 0,        \* C14: consecutive noisy Pending polls in a quiet phase
@@ -72,7 +73,12 @@ Fresh == [
   viol   |-> {}
 ]
 
-V(s, p, why) == IF s.poison /\ p # "C06" THEN s ELSE [s EXCEPT !.viol = @ \cup {<<p, why>>}]
+\* A delivery / order / polling fault that shows up after a refused push is also a fault of the refusal contract:
+\* "try_push* hands the future back, push* panics, without disturbing the held futures" (C15).
+Disturb == {"C02", "C04", "C05", "C11", "C12"}
+V(s, p, why) == IF s.poison /\ p # "C06" THEN s
+                ELSE [s EXCEPT !.viol = @ \cup {<<p, why>>}
+                                        \cup (IF s.refused /\ p \in Disturb THEN {<<"C15", "after a refused push the collection misbehaves: " \o why>>} ELSE {})]
 Chk(s, ok, p, why) == IF ok THEN s ELSE V(s, p, why)
 
 Held(s)  == {c \in DOMAIN s.ch : s.ch[c].st = "held"}
@@ -131,10 +137,10 @@ StepPush(s, e) ==
      ELSE IF e.res = "full"
      THEN LET s1 == Chk(s0, ~room, "C15", "push refused although there is room")
               s2 == Chk(s1, e.same, "C15", "refused push did not hand back the same future")
-          IN [s2 EXCEPT !.pend = @ \ {c}]
+          IN [s2 EXCEPT !.pend = @ \ {c}, !.refused = TRUE]
      ELSE \* panic
           LET s1 == Chk(s0, ~room, "C15", "push panicked although there is room")
-          IN [s1 EXCEPT !.pend = @ \ {c}]
+          IN [s1 EXCEPT !.pend = @ \ {c}, !.refused = TRUE]
 
 \* --------------------------------------------------------------- observers
 StepObs(s, e) ==
